@@ -40,7 +40,9 @@ func (je *jsonEncoder) Encode(writer io.Writer, node *CandidateNode) error {
 	log.Debugf("I need to encode %v", NodeToString(node))
 	log.Debugf("kids %v", len(node.Content))
 
-	if node.Kind == ScalarNode && je.prefs.UnwrapScalar {
+	if node.Kind == ScalarNode && je.prefs.UnwrapScalar && node.guessTagFromCustomType() == "!!str" {
+		// unwrapping is for strings (print the value with no quotes); any other
+		// scalar is printed as the JSON token it is, not as its yaml spelling
 		return writeString(writer, node.Value+"\n")
 	}
 
